@@ -81,7 +81,7 @@ def _doc(g, r, ti, files, dirpath, depth_budget=2, allow_fail=True):
             v = raw(f'!unsafe {emit.emit(g.value(1))}')
         elif c in (21, 22):
             # a module imported for the first time while (maybe) another thread is in the middle of importing it
-            mod = r.choice(['simslow_m1', 'simslow_m2'])
+            mod = r.choice(['simslow_m1', 'simslow_m2', 'simslowpkg.sub1', 'simslowpkg.sub2'])
             v = raw(r.choice([f'!call:{mod}.target {{x: {uid}}}', f'!import {mod}.value', f'!bind:{mod}.target [t{ti}]']))
         elif c == 19:
             other = r.choice([kk for kk in keys if kk != k] or ['nowhere'])
